@@ -11,10 +11,38 @@ LEAN_IMPORTS = ["WM.Props.C08"]
 THEOREMS = [
     "WM.C08.varbytes_roundtrip", "WM.C08.fixedbytes_roundtrip", "WM.C08.numeric_roundtrip",
     "WM.C08.refbytes_roundtrip", "WM.C08.bit_roundtrip", "WM.C08.bit_roundtrip_cell",
-    "WM.C08.pickled_roundtrip", "WM.C08.stored", "WM.C08.list_encodings", "WM.C08.varbyteslist_roundtrip",
-    "WM.C08.multi", "WM.C08.merge", "WM.C08.fixedwidth_roundtrip",
+    "WM.C08.pickled_roundtrip", "WM.C08.stored", "WM.C08.stored_fields", "WM.C08.list_encodings",
+    "WM.C08.varbyteslist_roundtrip", "WM.C08.fixedbyteslist_roundtrip",
+    "WM.C08.multi", "WM.C08.multi_value", "WM.C08.merge", "WM.C08.merge_model", "WM.C08.merge_varbytes",
+    "WM.C08.fixedwidth_roundtrip", "WM.C08.fixedwidth_roundtrip_exact",
 ]
-PARTIAL = {}
+# theorem -> what is missing for the full statement of the property
+PARTIAL = {
+    "WM.C08.fixedwidth_roundtrip":
+        "the right-hand side is parametrised by the writer's own `v == default` test, so for float type codes it "
+        "contains the -0.0 -> 0.0 elision (-0.0 == 0.0 is taken for the default and not written): this is weaker "
+        "than `returned unchanged`. The unconditional statement is fixedwidth_roundtrip_exact, whose hypothesis "
+        "(an add taken for the default has the default's bytes) is false exactly for -0.0; the harness reports that "
+        "case on the real code (finding NumericColumn.Writer.add:minus-zero-equals-default-and-is-elided)",
+    "WM.C08.numeric_roundtrip":
+        "integer type codes only; float type codes are covered by fixedwidth_roundtrip(_exact) over packed bytes "
+        "with struct packing as an identity parameter",
+    "WM.C08.stored_fields":
+        "values are opaque (pickle is an identity parameter); the conversion of field values to and from column "
+        "values (to_column_value / from_column_value: unicode -> utf8, NUMERIC/DATETIME -> sortable integers, "
+        "BOOLEAN -> bit, Decimal scaling) has no Lean model in this family: it is checked by the public-API stream "
+        "against Layer S on opaque values, and the numeric sortable encoding belongs to C13",
+    "WM.C08.merge_model":
+        "models the column copy of write_per_doc for one column of one old segment, given any reader that shows "
+        "`cell` (composed with the VarBytesColumn codec in merge_varbytes); stored fields, lengths and vectors copied "
+        "by the same loop, and merging with a docmap over several segments, are covered by the segs / api streams only",
+    "WM.C08.multi_value":
+        "__getitem__ only; MultiColumnReader.__iter__, ColumnReader.load() and sort_key/reverse readers are not "
+        "modelled (iter == getitem is checked differentially on the real readers)",
+    "WM.C08.bit_roundtrip":
+        "one read function for both the in-memory BitSet and the OnDiskBitSet paths (the real code picks by file "
+        "size); both real paths are driven by the columns stream",
+}
 RULE = ("column streams: strictly increasing (docnum, value) adds with gaps and trailing empty rows for every "
         "column type x storage (RAM, file mmap on/off, compound) x non-zero base position; sizes biased to the "
         "type-code thresholds (value length / total size 255|256, 65535|65536; 255|256|257 distinct values; "
@@ -23,6 +51,12 @@ RULE = ("column streams: strictly increasing (docnum, value) adds with gaps and 
 ASSUMPTIONS = [
     "pickle, zlib and struct packing of floats round-trip (identity parameters of the model)",
     "column regions start at base position 0 in the model; the real readers are also run at non-zero base positions",
+    "no Lean model of CompressedBlockColumn, ClampedNumericColumn (both marked experimental in columns.py and "
+    "defective, see the recorded findings) and StructColumn beyond fixedwidth_roundtrip(_exact): harness-only",
+    "field-level value conversion (to_column_value / from_column_value) is outside the Lean model; values are opaque "
+    "atoms in Layer S and the public-API stream compares them after the real conversion both ways",
+    "reader __iter__ and load() are not modelled; the columns stream compares list(reader) and reader.load() with "
+    "reader[d] on every case",
 ]
 TRUSTED = []
 MANIFEST = {
@@ -124,7 +158,14 @@ def _real_column(arg):
     it = extra["iter"]
     it_ok = (not isinstance(it, Exception)) and len(it) == len(rows) and all(
         (a == b) or (isinstance(b, Exception)) for a, b in zip(it, rows))
-    return head + G.lst(shown), (None if it_ok else repr(it)[:200])
+    problem = None if it_ok else repr(it)[:200]
+    ld = extra.get("load")
+    if it_ok and ld is not None:
+        ld_ok = (not isinstance(ld, Exception)) and len(ld) == len(rows) and all(
+            (a == b) or (isinstance(b, Exception)) for a, b in zip(ld, rows))
+        if not ld_ok:
+            problem = "load(): " + repr(ld)[:200]
+    return head + G.lst(shown), problem
 
 
 def _pack(obj):
@@ -208,7 +249,10 @@ def stream_columns(ctx, n, args=None):
                               "final fill(); the padding made the offsets array change its type code")
             else:
                 ctx.divergence("columns." + c["type"], _case_json(c, storage, prefix), m[:1500], r[:1500])
-        if iter_problem:
+        if iter_problem and iter_problem.startswith("load(): "):
+            ctx.violation("ColumnReader.load:differs-from-getitem:" + c["type"], _case_json(c, storage, prefix),
+                          "load() gives the rows", iter_problem, "reader.load()[d] != reader[d] for some d")
+        elif iter_problem:
             ctx.violation("ColumnReader.__iter__:differs-from-getitem:" + c["type"], _case_json(c, storage, prefix),
                           "iteration yields the rows", iter_problem, "list(reader) != [reader[d] for d in range(n)]")
         # the Python transcription of Layer S used by the big-size stream must agree with Lean
@@ -424,6 +468,52 @@ def stream_api(ctx, n, cases=None):
 
 
 # ------------------------------------------------------------------------------------------------
+# stream 4b: segments with and without the column file behind a MultiReader, then merged into one
+# segment — the real rows against the model's `multiGet` and `mergeColumnAdds` (which the driver
+# also compares with Layer S: `(model 1)`)
+
+def stream_segs(ctx, n, cases=None):
+    rng = ctx.rng("segs")
+    if cases is None:
+        cases = [G.gen_seg_case(rng, ctx.tier) for _ in range(n)]
+    results = ctx.pmap(G.run_seg_case, cases, chunksize=4)
+    lines = []
+    for c, res in zip(cases, results):
+        hascols = res[0] if not isinstance(res, str) else [any(v is not None for v in s) for s in c["segs"]]
+        lines.append(G.seg_line(c, hascols))
+    model = ctx.driver.ask(lines)
+    for c, res, m in zip(cases, results, model):
+        case = dict(c, _stream="segs", _pickle=_pack(c))
+        case["segs"] = repr(c["segs"])
+        nocol = isinstance(res, str) or not all(res[0])
+        ctx.case(("segs", repr(c)), nontrivial=len(c["segs"]) > 1 and (nocol or bool(c["deletes"])))
+        ctx.stat("segs:kind=" + c["kind"])
+        if isinstance(res, str):
+            ctx.violation("segments:index-build:" + res.split(":")[0].replace(" ", "-"), case, "index builds and reads", res,
+                          "building / reading / merging the segments raised")
+            continue
+        hascols, multi, merged, ids = res
+        ctx.stat("segs:without-column=%s" % (not all(hascols)))
+        if not m.endswith("(model 1)"):
+            ctx.divergence("multiGet/mergeColumnAdds-vs-spec", case, m[:400], "(model 1)")
+            continue
+        from vcheck import parse_sexp
+        mm = parse_sexp("(" + m + ")")[0]
+        if list(mm[0]) != multi:
+            ctx.violation("MultiReader.column_reader:rows", case, " ".join(mm[0]), " ".join(multi),
+                          "rows of the column through a reader over %d segments (has_column %r)" % (len(hascols), hascols))
+            continue
+        dels = set(c["deletes"])
+        live_ids = [u"%d" % g for g in range(sum(len(s) for s in c["segs"])) if g not in dels]
+        if ids != live_ids:
+            ctx.violation("optimize:document-order", case, live_ids, ids, "documents after delete + optimize")
+            continue
+        if list(mm[1]) != merged:
+            ctx.violation("SegmentWriter.write_per_doc:column-copy", case, " ".join(mm[1]), " ".join(merged),
+                          "rows of the column after delete %r + optimize" % (c["deletes"],))
+
+
+# ------------------------------------------------------------------------------------------------
 # stream 5 (thorough): sizes beyond what the list-based Lean model evaluates in reasonable time
 # (65 535 / 65 536 / 65 537 distinct values, 2^15 / 2^16 rows).  The oracle is `py_rows`, a Python
 # transcription of Layer S (`cell` / `refCell`) that stream 1 cross-checks against the Lean
@@ -579,6 +669,7 @@ def run(ctx):
     stream_wrapped(ctx, ctx.budget(600, 4000))
     stream_lists(ctx, ctx.budget(600, 4000))
     stream_api(ctx, ctx.budget(200, 1500))
+    stream_segs(ctx, ctx.budget(150, 1200))
     stream_large(ctx)
     if ctx.tier == "thorough":
         stream_big(ctx)
@@ -591,6 +682,8 @@ def _dispatch(ctx, by):
         stream_wrapped(ctx, 0, by["wrapped"])
     if by.get("api"):
         stream_api(ctx, 0, by["api"])
+    if by.get("segs"):
+        stream_segs(ctx, 0, by["segs"])
 
 
 def _corpus(ctx):
